@@ -74,6 +74,11 @@ func vdrCase(c *Ctx, focus string) {
 	gcfg.Volatile = c.Plan.Draw(4) > 0
 	gcfg.Retain = c.Plan.Draw(2) == 0
 	prog := Generate(c.Plan, gcfg)
+	if c.Plan.Draw(4) == 0 {
+		// a quarter of the cases come from the producer / retain / consumer family
+		prog = templateVdrProg(c.Plan)
+		c.Res.Probes["template-program"]++
+	}
 	mode := []string{"rolling", "post", "strict"}[c.Plan.Draw(3)]
 	cfg := &RunCfg{Prog: prog, FCfg: &FCfg{MaxLen: 1 + c.Plan.Draw(3), MaxChunks: c.Plan.Draw(4), Salt: "vdr"},
 		MaxSteps: 80000, ExtraFiles: true}
@@ -148,6 +153,21 @@ func vdrCase(c *Ctx, focus string) {
 		}
 		for _, p := range in.Stage.Retain {
 			collectPaths(in.Outs[p], r.PsDir, retained)
+		}
+	}
+	// pipeline-level retains: the named output of every instance of the call
+	for _, in := range ev.Insts {
+		if in.Outs == nil || in.Call == nil {
+			continue
+		}
+		for _, pl := range prog.Pipelines {
+			for _, rt := range pl.Retain {
+				for _, cc := range pl.Calls {
+					if cc == in.Call && rt.Call == cc.Id {
+						collectPaths(in.Outs[rt.Path[0]], r.PsDir, retained)
+					}
+				}
+			}
 		}
 	}
 	// ---- C04 (iii): final outputs exist with their original content ----
@@ -291,4 +311,84 @@ func vdrCase(c *Ctx, focus string) {
 func init() {
 	Profiles["C04"] = func(c *Ctx) { vdrCase(c, "C04") }
 	Profiles["C14"] = func(c *Ctx) { vdrCase(c, "C14") }
+}
+
+// templateVdrProg builds a program from the family that the VDR logic is about:
+// an (optionally mapped, optionally volatile) producer of files, whose outputs
+// are retained and/or consumed by downstream stages and/or returned by the
+// top-level pipeline.  All choices come from the plan tape.
+func templateVdrProg(plan *Tape) *Prog {
+	p := &Prog{FileTypes: []string{"txt", "json"}}
+	intT, txt := Ty{Base: "int"}, Ty{Base: "txt"}
+	ref := func(call string, path ...string) *Expr { return &Expr{Kind: ERef, Call: call, Path: path} }
+	list := &StageDef{Name: "LIST", SrcKind: "comp", Ins: []Field{{"n", intT}}, Outs: []Field{{"items", intT.ArrayOf()}}}
+	prod := &StageDef{Name: "PRODUCE", SrcKind: "comp", Ins: []Field{{"x", intT}},
+		Outs: []Field{{"data", txt}, {"more", txt.ArrayOf()}, {"num", intT}}}
+	if plan.Draw(3) == 0 {
+		prod.Split = true
+		prod.ChunkIns = []Field{{"c0", intT}}
+		prod.ChunkOuts = []Field{{"part", txt}}
+	}
+	switch plan.Draw(4) {
+	case 0:
+		prod.Volatile = "strict"
+	case 1:
+		prod.Volatile = "false"
+	}
+	switch plan.Draw(3) {
+	case 0:
+		prod.Retain = []string{"data"}
+	case 1:
+		prod.Retain = []string{"data", "more"}
+	}
+	p.Stages = []*StageDef{list, prod}
+	pl := &PipelineDef{Name: "TOPV", Ins: []Field{{"n", intT}}}
+	pl.Calls = append(pl.Calls, &CallDef{Callee: "LIST", Id: "LIST", Binds: []Bind{{"n", &Expr{Kind: ERef, Self: true, Path: []string{"n"}}, false}}})
+	pc := &CallDef{Callee: "PRODUCE", Id: "PRODUCE", Volatile: plan.Draw(2) == 0}
+	mapped := plan.Draw(4) > 0
+	dataT := txt
+	if mapped {
+		pc.Mapped = true
+		dataT = txt.ArrayOf()
+		if plan.Draw(3) > 0 {
+			pc.Binds = []Bind{{"x", ref("LIST", "items"), true}} // run-time fork count
+		} else {
+			pc.Binds = []Bind{{"x", &Expr{Kind: ELit, Val: []interface{}{int64(5), int64(6), int64(7)}, T: intT.ArrayOf()}, true}}
+		}
+	} else {
+		pc.Binds = []Bind{{"x", &Expr{Kind: ERef, Self: true, Path: []string{"n"}}, false}}
+	}
+	pl.Calls = append(pl.Calls, pc)
+	ncons := plan.Draw(3)
+	for i := 0; i < ncons; i++ {
+		name := fmt.Sprintf("CONSUME%d", i)
+		cs := &StageDef{Name: name, SrcKind: "comp", Ins: []Field{{"f", dataT}, {"k", intT}}, Outs: []Field{{"done", intT}}}
+		if plan.Draw(3) == 0 {
+			cs.Outs = append(cs.Outs, Field{"own", txt})
+		}
+		p.Stages = append(p.Stages, cs)
+		c := &CallDef{Callee: name, Id: name, Binds: []Bind{{"f", ref("PRODUCE", "data"), false}, {"k", ref("LIST", "items"), false}}}
+		c.Binds[1] = Bind{"k", &Expr{Kind: ELit, Val: int64(i), T: intT}, false}
+		if i > 0 && plan.Draw(2) == 0 {
+			// a chain: the second consumer also waits for the first
+			c.Binds[1] = Bind{"k", ref(fmt.Sprintf("CONSUME%d", i-1), "done"), false}
+		}
+		pl.Calls = append(pl.Calls, c)
+	}
+	if plan.Draw(3) == 0 {
+		pl.Retain = append(pl.Retain, ref("PRODUCE", "more"))
+	}
+	pl.Outs = []Field{{"count", intT.ArrayOf()}}
+	pl.Ret = []Bind{{"count", ref("LIST", "items"), false}}
+	if plan.Draw(3) == 0 {
+		pl.Outs = append(pl.Outs, Field{"data", dataT})
+		pl.Ret = append(pl.Ret, Bind{"data", ref("PRODUCE", "data"), false})
+	}
+	if ncons > 0 && plan.Draw(2) == 0 {
+		pl.Outs = append(pl.Outs, Field{"last", intT})
+		pl.Ret = append(pl.Ret, Bind{"last", ref(fmt.Sprintf("CONSUME%d", ncons-1), "done"), false})
+	}
+	p.Pipelines = []*PipelineDef{pl}
+	p.Top = &CallDef{Callee: "TOPV", Id: "TOPV", Binds: []Bind{{"n", &Expr{Kind: ELit, Val: int64(3 + plan.Draw(5)), T: intT}, false}}}
+	return p
 }
